@@ -106,6 +106,10 @@ class MaxPoolND(Operation):
         x = var.data
         num_pool = len(self.pool)
 
+        if x.size == 0:
+            # an empty batch (or channel) axis: there is nothing to route
+            return np.zeros(x.shape, dtype=grad.dtype)
+
         sl = sliding_window_view(x, self.pool, self.stride)
         grid_shape = sl.shape
         maxed = sl.reshape(*sl.shape[:-num_pool], -1).argmax(-1)
